@@ -33,7 +33,9 @@ Source tie: `register`, `unregister`, `linkHooks` / `finalHooks` and the handler
 `mutate` are proved equal to the interpretation (`Model/LisL.lean`) of the translated source
 (`Generated/LegacyProg.lean`, harness/translate/legacysrc.py): Props/C16.lean
 `C16_register_is_source`, `C16_handle_is_source`, `C16_handler_table`, `C16_guards_are_source`,
-`C16_deferred_is_source`, `C16_dst_table`.
+`C16_deferred_is_source`, `C16_dst_table`, `C16_anytrait_is_source`; `Name` / `typeOf` (what the
+parser makes of a name string) are tied to the translated `ListenerParser` by
+`C16_parser_is_source` (`Model/ParL.lean`), `ListenerGroup` by `C16_group_is_source`.
 
 Set links (`group`): `_register_set = _register_list`, `TraitSetEvent.removed / added` duck-type
 `TraitListEvent`; detached containers (`Op.stray`).
